@@ -16,3 +16,8 @@ import (
 func NewReconcilerForVerif(topo topo.Store, configurations configurationstore.Store) controller.Reconciler {
 	return &Reconciler{topo: topo, configurations: configurations}
 }
+
+// NewWatchersForVerif returns the v3 mastership controller's watchers, in the order NewController registers them
+func NewWatchersForVerif(topo topo.Store, configurations configurationstore.Store) []controller.Watcher {
+	return []controller.Watcher{&TopoWatcher{topo: topo}, &ConfigurationStoreWatcher{configurations: configurations}}
+}
